@@ -21,6 +21,9 @@ mod sclass;
 mod sprops;
 mod tprops;
 
+#[global_allocator]
+static GLOBAL: core::CountAlloc = core::CountAlloc;
+
 use fclass::*;
 use lowprops::*;
 use mclass::*;
@@ -178,7 +181,7 @@ fn rule_for(prop: &str) -> &'static str {
         "C17" => "c17-sink-api: generated write/read/drain/open/close sequences (1-80 ops, 3 writer clones, capacities 1-39) on EventBuffer and EventSlot against a VecDeque/Option model; non-trivial = buffer overflowed (and capacity>1 or a write while closed) / slot overwritten then read then empty. c17-sink-threads: 2-3 threads writing 1-1500 numbered events each through writer clones of one EventBuffer (capacity 1-39), optionally with a concurrent reader; the buffer never holds more than its capacity once no write is in flight, holds exactly min(capacity, writes) without reads, per-writer order, nothing invented; non-trivial = >=2 writers and an overflow. c17-sim: class-M cases, sink content per (model, output) must be in sending order; non-trivial = a sink holds >=2 sends of one output; distinct = hash of the JSON case",
         "C20" => "generated insert/pull/peek/extract sequences (1-400 ops, key alphabet 0..3 plus random keys) on the real PriorityQueue and IndexedPriorityQueue sources (compiled in with #[path]) against a linear reference (smallest key, then first inserted; extract only through the key issued for that entry); non-trivial = >=2 insertions of an already resident key AND (indexed) a stale key whose slab slot has been reused by a live entry / (plain) the queue ran empty; distinct = hash of the JSON case",
         "C11" => "class-F cases: an acyclic class-M bench plus one generated fault (panic x3 payload kinds in model/sub-model/init, send to a dropped mailbox from a model or a source, self-query deadlock, orphan mailbox, clock lag above tolerance at the k-th step, overrunning handler with a 250 ms timeout), 0-2 step_until-into-the-past commands, 1-6 calls after the fatal error; oracle = predicted error kind and attribution of every command from the expansion, Terminated/no panic/no handling of the injected message/time unchanged afterwards, all handlers run after a non-fatal error; non-trivial = a fatal fault was hit after init and >=2 further calls were made, or a command ran normally after a non-fatal error; distinct = hash of the JSON case",
-        "C19" => "class-F cases with drop-counting tokens in every model, message, reply and scheduled event, dropped at a generated point (idle, stalled, failed, scheduled events pending); oracle = tokens created == tokens dropped after the drop, worker threads that ran handlers == worker threads exited, no handler record after the drop; non-trivial = >=5 tokens AND (dropped after a fatal error OR with scheduled events pending); distinct = hash of the JSON case",
+        "C19" => "class-F cases with drop-counting tokens in every model, message, reply and scheduled event, dropped at a generated point (idle, stalled, failed, scheduled events pending); oracle = tokens created == tokens dropped after the drop, worker threads that ran handlers == worker threads exited, no handler record after the drop, and (single-threaded cases) the driver thread's heap balance: live blocks allocated by the thread are the same before building the bench and after dropping everything (a surplus that repeats on two re-runs of the case is a leak); non-trivial = >=5 tokens AND (dropped after a fatal error OR with scheduled events pending); distinct = hash of the JSON case",
         _ => "see DESIGN.md",
     }
 }
